@@ -1,6 +1,8 @@
 """C15 -- free row space.  Proof: coq/Properties_C15.v (exactness, structure, ignored
-cells, obstacle order).  Tie: exact equality of the segment lists of Row::freespace and
-Circuit::computeRows with the extracted model, exhaustive on a small grid + random; the
+cells, obstacle order) -- theorems about a SPECIFICATION function (FreeSpace.v is the contract of
+Row::freespace, not a model of its boost::polygon code path), which is tested equal to the code.
+Tie: exact equality of the segment lists of Row::freespace and
+Circuit::computeRows with the extracted specification, exhaustive on a small grid + random; the
 statement itself is re-checked column by column on the C++ output."""
 import json
 from tools import common
@@ -81,7 +83,7 @@ def state_verdict(cr, rows_text):
 
 
 def run(ctx):
-    proof_ok, proof = common.proof_status(ctx, "C15")
+    proof_ok, proof = common.proof_status_all(ctx, "C15", ["gaps2_C15"])
     harness = common.build_harness("freespace")
     driver = common.build_driver()
     grid = (3, 2, 2) if ctx.quick else (4, 2, 2)
@@ -195,7 +197,8 @@ def run(ctx):
                                         steps_not_run_through=len(anomalies)),
                 "model_vs_impl_differences": len(mism) + len(seq_mism), "impl_outputs_violating_statement": len(ofail) + len(seq_bad) + len(anomalies)})
     return ctx.finish(LEVEL, cov, ["inverted rectangles (minX>maxX) are outside the domain (a placement of non-negative size is never inverted)",
-                                   "model tied to the code by exact comparison on the cases of this run",
+                                   "FreeSpace.v is a specification tested equal to the code (boost::polygon's slicing is not modelled); the theorems are about freespace_iv on one row, nothing is proved at compute_rows / Circuit level; 'ignored cells' restates a definition and rests on the tie",
+                                   "specification tied to the code by exact comparison on the cases of this run",
                                    "sequence stream: the circuit's state is what its public getters return (nets: what the harness itself set, "
                                    "cross-checked with nbNets/nbPinsNet/pinCell); rows of a sequence are disjoint in y"])
 
